@@ -58,6 +58,7 @@ theorem encq_inj (a b : Nat) : encq a = encq b ↔ a = b := by
 theorem encq_eq_zero (g : Nat) : encq g = 0 ↔ g = 0 := by
   unfold encq; split <;> omega
 theorem encq_zero : encq 0 = 0 := rfl
+theorem decq_zero : decq 0 = 0 := by decide
 
 def qGpCtr : Loc := .field (.glob "urcu_qsbr_gp") "ctr"
 def qRdCtr : Loc := .field (.tls "urcu_qsbr_reader") "ctr"
@@ -222,7 +223,7 @@ def KPost (out : Out) : Prop :=
 open Lean.Parser.Tactic in
 macro "absq_simp" "[" ts:simpLemma,* "]" : tactic =>
   `(tactic| (simp [absRunQ, absEvQ, qrun, qstep, absRunK, absEvK, krun, kstep, qWakeArgs, RelQ, decq_encq, encq_inj,
-               encq_eq_zero, encq_zero, Event.loc?, qGpCtr, qRdCtr, qWaiting, qFutex, Done,
+               encq_eq_zero, encq_zero, decq_zero, Event.loc?, qGpCtr, qRdCtr, qWaiting, qFutex, Done,
                exists_pair_eq, exists_pair_eq', *, $ts,*]
              try (simp +contextual [*])))
 
@@ -314,6 +315,30 @@ theorem qsbr_thread_online (fuel : Nat) (env : Env) (inp : List Val) (ls : QStat
     obtain ⟨g, hg1, rfl⟩ := hgp v rfl
     have hg0 : g ≠ 0 := by omega
     qs_go
+
+/-! ## `urcu_qsbr_wake_up_gp()` on its own: a waker run from pc `k1` -/
+
+theorem qsbr_wake_up_gp (fuel : Nat) (env : Env) (inp : List Val)
+    (hint : ∀ v, v ∈ inp → ∃ n : Int, v = .int n) :
+    ∃ out, exec fuel «urcu_qsbr_wake_up_gp» env inp = .ok out ∧ (Done out.ctl ∨ out.ctl = .blocked) ∧
+      ∀ r0, ∃ klabs ks', absRunK { kpc := .k1, r := r0 } out.events = some (klabs, ks') ∧
+        (Done out.ctl → ks'.kpc = .k9) := by
+  cases inp with
+  | nil => qs_go
+  | cons w r2 =>
+    obtain ⟨wn, rfl⟩ := hint w (by simp)
+    by_cases hw : wn = 0
+    · subst hw; qs_go
+    · cases r2 with
+      | nil => qs_go
+      | cons f r3 =>
+        obtain ⟨fn, rfl⟩ := hint f (by simp)
+        by_cases hf : fn = -1
+        · subst hf
+          cases r3 with
+          | nil => qs_go
+          | cons x r4 => qs_go
+        · qs_go
 
 /-! ## `rcu_read_ongoing()`, `rcu_read_lock()`, `rcu_read_unlock()` -/
 
